@@ -8,11 +8,13 @@ Definition directives := list (bytes * bytes).   (* a Go map: at most one bindin
 
 (* one element of the comma-separated list -> (key, value); [None] when the key is empty *)
 Definition directive_of_part (part : bytes) : option (bytes * bytes) :=
-  let '(k, v) :=
+  let '(k0, v) :=
     match cut 61 part with
     | Some (k, v) => (k, tp_trim v)
-    | None => (tp_trim part, [])
+    | None => (part, [])
     end in
+  (* strings.ToLower(textproto.TrimString(key)); ASCII only in the modelled domain *)
+  let k := lower (tp_trim k0) in
   match k with [] => None | _ => Some (k, v) end.
 
 (* maps.Collect: a later binding of the same key overwrites an earlier one *)
@@ -28,10 +30,10 @@ Fixpoint collect (parts : list bytes) (m : directives) : directives :=
 
 Definition parse_directives (s : bytes) : directives := collect (trimmed_csv s) [].
 
-(* ParseCCRequestDirectives / ParseCCResponseDirectives: header.Get("Cache-Control") — first line only *)
+(* ParseCCRequestDirectives / ParseCCResponseDirectives: all field lines joined with "," *)
 Definition cc_name : bytes := bs "Cache-Control".
 Definition parse_cc (h : headers) : directives :=
-  match hget cc_name h with
+  match join [44] (hvalues cc_name h) with
   | [] => []
   | v => parse_directives v
   end.
@@ -39,26 +41,29 @@ Definition parse_cc (h : headers) : directives :=
 Definition has_token (d : directives) (t : bytes) : bool := amem t d.
 
 (* RawDeltaSeconds.Value: (duration in ns after Go's wrapping multiplication, valid) *)
+Definition max_delta_seconds : Z := max64 / second.
 Definition delta_seconds (r : bytes) : option Z :=
   match r with
   | [] => None
   | c :: _ =>
-      if c =? 45 then None
+      if (c =? 45) || (c =? 43) then None
       else match parse_int64 r with
-           | PI_ok v => Some (wrap64 (v * second))
-           | _ => None
+           | PI_ok v => Some (if max_delta_seconds <? v then max64 else v * second)
+           | PI_range v => Some (if max_delta_seconds <? v then max64 else v * second)
+           | PI_syntax => None
            end
   end.
 
 Definition duration_directive (d : directives) (t : bytes) : option Z :=
   match alookup t d with
-  | Some v => delta_seconds v
+  | Some v => delta_seconds (parse_quoted_string v)
   | None => None
   end.
 
 (* request directives *)
 Definition req_max_age (d : directives) := duration_directive d (bs "max-age").
-Definition req_max_stale_raw (d : directives) : option bytes := alookup (bs "max-stale") d.
+Definition req_max_stale_raw (d : directives) : option bytes :=
+  option_map parse_quoted_string (alookup (bs "max-stale") d).
 Definition req_min_fresh (d : directives) := duration_directive d (bs "min-fresh").
 Definition req_no_cache (d : directives) := has_token d (bs "no-cache").
 Definition req_no_store (d : directives) := has_token d (bs "no-store").
